@@ -158,7 +158,7 @@ func (e *FuncEnc) encodeCall(in ssa.Instruction, c *ssa.CallCommon, res ssa.Valu
 				}
 			}
 			if after.trace != before.trace {
-				merged.trace = e.define("tr", "Trace", ite(guard, after.trace, before.trace))
+				merged.trace = e.mergeTraces([]string{guard, "true"}, []string{after.trace, before.trace})
 			}
 			e.cur = merged
 		}()
@@ -467,6 +467,10 @@ func (e *FuncEnc) contractCall(in ssa.Instruction, f *ssa.Function, c *Contract,
 		for _, nf := range c.PreHook(e, args) {
 			e.obligeKeep("call:"+f.Name(), "requires:"+nf.Name, nf.Formula, in.Pos())
 		}
+	}
+	if bindings != nil {
+		e.noPreserve = capturedAllocs(bindings)
+		defer func() { e.noPreserve = nil }()
 	}
 	if !c.Pure {
 		keys, top, tr := e.W.ModSet(f)
